@@ -1,4 +1,5 @@
 import PgBifrost.Proofs.S3
+import PgBifrost.Gen.S3Src
 /-!
 # C12 — S3: one complete, correctly keyed object per written batch (property theorems)
 
@@ -283,6 +284,32 @@ theorem s3_reported_iff_written (env : Env) (cfg : Cfg) (w : Worker) (t : TimePa
         cases (retry zlen cfg.budget 0 0 script).2 <;> simp only [Bool.not_true, Bool.not_false, if_true, Bool.false_eq_true, if_false]
         · simp
         · by_cases hm : c = .mid <;> simp [hm]
+
+/-! ## the key function IS the source's (translator `tools/factgen/s3tr.go`, regenerated every run) -/
+
+theorem gen_go_eq (n : Nat) (l : List Bytes) (i : Nat) :
+    PgBifrost.Gen.S3Src.go n i l = keyJoinFixedAux n i l := by
+  induction l generalizing i with
+  | nil => simp [PgBifrost.Gen.S3Src.go, keyJoinFixedAux]
+  | cons s rest ih =>
+    simp only [PgBifrost.Gen.S3Src.go, keyJoinFixedAux, trim, ih]
+    by_cases h : trimLeft (trimRight s) = [] <;> simp [h]
+
+/-- `key_join` translated from the source loop (trim right, trim left, skip when empty, write, separator
+unless this is the last component, ".gz") is the model's key function, and `transportWithRetry` builds the
+key once per batch from the key space, the four date parts and `<full>_<first record's LSN>`, handing exactly
+that key and the rewindable reader to `PutObject`. -/
+theorem s3_key_as_in_source :
+    PgBifrost.Gen.S3Src.keyJoin = keyFn ∧
+    PgBifrost.Gen.S3Src.firstWalStart = "messagesSlice[0].WalStart" ∧
+    PgBifrost.Gen.S3Src.dateParts = "ts.DateString()" ∧
+    PgBifrost.Gen.S3Src.baseFilename = "fmt.Sprintf(\"%s_%d\", full, firstWalStart)" ∧
+    PgBifrost.Gen.S3Src.fullKey = "key_join(t.keySpace, year, month, day, hour, baseFilename)" ∧
+    PgBifrost.Gen.S3Src.putKey = "aws.String(fullKey)" ∧
+    PgBifrost.Gen.S3Src.putBody = "byteReader" := by
+  refine ⟨?_, rfl, rfl, rfl, rfl, rfl, rfl⟩
+  funext parts
+  simp only [PgBifrost.Gen.S3Src.keyJoin, keyFn, keyJoinFixed, gen_go_eq]
 
 /-! ## non-vacuity -/
 
